@@ -52,6 +52,9 @@ type connection struct {
 	idleTime    time.Time
 	invokeNum   int32
 	dialTimeout time.Duration
+
+	dialErr      error
+	dialFailTime time.Time
 }
 
 // NewTarsClient new tars client and init it .
@@ -123,9 +126,15 @@ func (tc *TarsClient) GraceClose(ctx context.Context) {
 }
 
 func (c *connection) ReConnect() (err error) {
+	begin := time.Now()
 	c.connLock.Lock()
 	defer c.connLock.Unlock()
 	if c.isClosed {
+		// a dial that failed while this caller was waiting for the lock speaks for
+		// it too, otherwise concurrent callers queue one dial timeout behind another
+		if c.dialErr != nil && !c.dialFailTime.Before(begin) {
+			return c.dialErr
+		}
 		TLOG.Debug("Connect:", c.client.address, "Proto:", c.client.config.Proto)
 		if c.client.config.Proto == "ssl" {
 			dialer := &net.Dialer{Timeout: c.dialTimeout}
@@ -135,8 +144,10 @@ func (c *connection) ReConnect() (err error) {
 		}
 
 		if err != nil {
+			c.dialErr, c.dialFailTime = err, time.Now()
 			return err
 		}
+		c.dialErr = nil
 		if c.client.config.Proto == "tcp" {
 			if c.conn != nil {
 				_ = c.conn.(*net.TCPConn).SetKeepAlive(true)
